@@ -846,3 +846,31 @@ Lemma C04_witness_repaired_thm :
   espbuf (witness_final true false) = [] /\ espbuf (witness_final false true) = [] /\ conn (witness_final true false) = 2.
 Proof. vm_compute. repeat split. Qed.
 
+(* ---------- the hypotheses of the theorems are satisfiable ---------- *)
+Definition ex_accepted : st :=
+  run_from (boot_device 0 0 ESP_ARG (zeros (REG_BASE_SIZE + 2 * REG_CHANNEL_SIZE)) [] true false)
+           [Adv 300000; Wifi STATION_GOT_IP_; Adv 300000; ConnCb; Adv 500000; Recv (regok_frame 20); Local 0; Adv 200000].
+Lemma ex_accepted_ok : reachable true false ex_accepted /\
+  exists p, srpc ex_accepted = Some p /\ got_ok p = true /\ hist p = [CALL_VALUE_CHANGED; CALL_SET_ACTIVITY_TIMEOUT; CALL_REGISTER_E] /\ sid p = 1.
+Proof.
+  split.
+  - exists 0, 0, ESP_ARG, (zeros (REG_BASE_SIZE + 2 * REG_CHANNEL_SIZE)), [],
+      [Adv 300000; Wifi STATION_GOT_IP_; Adv 300000; ConnCb; Adv 500000; Recv (regok_frame 20); Local 0; Adv 200000].
+    unfold ex_accepted. reflexivity.
+  - vm_compute. eexists; repeat split.
+Qed.
+Definition ex_refused : st :=
+  run_from (boot_device 0 0 ESP_ARG (zeros REG_BASE_SIZE) [] true false)
+           [Adv 300000; Wifi STATION_GOT_IP_; Adv 300000; ConnCb; Adv 500000;
+            Recv (encode (SRV_REGISTER_RESULT, 1, enc32 5 ++ [0; DEVICE_PROTO_VERSION; 1])); Local 0; Adv 4999].
+Lemma ex_refused_ok : reachable true false ex_refused /\
+  exists p, srpc ex_refused = Some p /\ refused_at p = Some 1100000 /\ hist p = [CALL_REGISTER_E] /\ registered ex_refused = -1 /\
+  srpc (step ex_refused (Adv 1)) = None /\ link ex_refused = L_LIVE /\ link (step ex_refused (Adv 1)) = L_CLOSING.
+Proof.
+  split.
+  - exists 0, 0, ESP_ARG, (zeros REG_BASE_SIZE), [],
+      [Adv 300000; Wifi STATION_GOT_IP_; Adv 300000; ConnCb; Adv 500000;
+       Recv (encode (SRV_REGISTER_RESULT, 1, enc32 5 ++ [0; DEVICE_PROTO_VERSION; 1])); Local 0; Adv 4999].
+    unfold ex_refused. reflexivity.
+  - vm_compute. eexists; repeat split.
+Qed.
